@@ -141,6 +141,37 @@ def single_items(x):
 
 
 # ----------------------------------------------------------------------------- binary operators
+def equality_boundary(c, x, e):
+    """two values x + t e on either side of the point where the library's own single-valued == stops calling them equal to x
+    (adjacent floating point t): the sequence forms must draw the line exactly where the single-valued operation does"""
+    one = mk(c, [x])
+
+    def eq(t):
+        try:
+            return bool(one == mk(c, [x + t * e]))
+        except Exception:
+            return None
+    lo, hi = 0.0, 1e-20
+    for _ in range(80):
+        r = eq(hi)
+        if r is None:
+            return None
+        if not r:
+            break
+        lo, hi = hi, hi * 8
+    else:
+        return None
+    for _ in range(90):
+        mid = 0.5 * (lo + hi)
+        if mid == lo or mid == hi:
+            break
+        if eq(mid):
+            lo = mid
+        else:
+            hi = mid
+    return x + lo * e, x + hi * e
+
+
 def run_binop(ctx, p):
     c, op, A, B = p['cls'], p['op'], p['A'], p['B']
     m, n = len(A), len(B)
@@ -499,8 +530,8 @@ def run(ctx):
     i = 0
     for c in CLS:
         for op in OPS_FOR[c]:
-            for m in range(1, 6):
-                for n in range(1, 6):
+            for m in range(1, 8):
+                for n in range(1, 8):
                     i += 1
                     if not ctx.mine(i):
                         continue
@@ -524,7 +555,7 @@ def run(ctx):
                         ctx.sample(dict(case='binop', cls=c, op=op, m=m, n=n), limit=8)
             # objects holding many values (a batch path, a chunk size, a preallocated buffer would show here), with repeated
             # values among them (drawn from a pool of three: coincidences of equal elements)
-            huge_ = int([2000, 2048, 2500][rng.integers(3)])
+            huge_ = int([2000, 2048, 2500][rng.integers(3)] if ctx.tier == 'quick' else [2000, 2048, 2500, 4096, 10007][rng.integers(5)])
             for m, n in ((16, 16), (17, 1), (1, 33), (64, 64), (16, 17), (8, 8), (100, 1), (128, 128), (128, 129), (256, 300), (129, 128), (257, 1), (1, 256),
                          (huge_, huge_), (1, huge_), (huge_, 1), (huge_, huge_ + 1)):
                 i += 1
@@ -539,6 +570,38 @@ def run(ctx):
                 if rng.random() < 0.5:
                     A = [element(rng, c) for _ in range(m)]
                 drive(RUNNERS, ctx, 'binop', dict(cls=c, op=op, A=A, B=B))
+        # four values that, stacked, happen to form a valid homogeneous matrix (the units 1, i, j, k: an N x 4 array with N = 4 has
+        # two readings): the result of an operator holds four values all the same
+        if c in ('Quaternion', 'UnitQuaternion'):
+            for op in OPS_FOR[c]:
+                i += 1
+                if not ctx.mine(i):
+                    continue
+                E4 = [np.eye(4)[k_] for k_ in range(4)]
+                for A_, B_ in ((E4, [E4[0]]), ([E4[0]], E4), (E4, E4), ([E4[1]], E4), (E4, [E4[3]]), ([E4[k_] for k_ in (0, 2, 1, 3)], [E4[0]]),
+                               ([-E4[0], E4[1], E4[2], E4[3]], [E4[0]])):
+                    drive(RUNNERS, ctx, 'binop', dict(cls=c, op=op, A=[a_.copy() for a_ in A_], B=[b_.copy() for b_ in B_]))
+        # == and != exactly at the line between "equal" and "not equal" of the single-valued operation (found by bisection with the
+        # library's own ==): every sequence form answers as the single-valued form does, with the operands in either order
+        for op in ('eq', 'ne'):
+            for dense in (False, True):
+                i += 1
+                if not ctx.mine(i):
+                    continue
+                for _ in range(reps):
+                    x = element(rng, c)
+                    e_ = rng.normal(size=x.shape) if dense else np.zeros(x.shape)
+                    if not dense:
+                        e_.reshape(-1)[int(rng.integers(e_.size))] = float(gen.sign(rng))
+                    if c in ('SE2', 'SE3') and not dense:       # (a translation component: the scale-dependent side of a relative test)
+                        e_ = np.zeros(x.shape)
+                        e_[int(rng.integers(x.shape[0] - 1)), -1] = float(gen.sign(rng))
+                    pair = equality_boundary(c, x, e_)
+                    if pair is None:
+                        continue
+                    for A_, B_ in (([x], [pair[0], pair[1], x]), ([pair[0], pair[1], x], [x]), ([x, x, pair[1]], [pair[0], pair[1], x]),
+                                   ([pair[0]], [x, pair[1]]), ([pair[1], x], [x, pair[0]])):
+                        drive(RUNNERS, ctx, 'binop', dict(cls=c, op=op, A=[np.array(a_) for a_ in A_], B=[np.array(b_) for b_ in B_], boundary=True))
         for m in list(range(1, 6)) + [16, 64]:
             i += 1
             if not ctx.mine(i):
@@ -564,7 +627,7 @@ def run(ctx):
                     k = [2, -1, 3, 0.5, -2.5, float(rng.uniform(-4, 4))][rng.integers(6)]
                     drive(RUNNERS, ctx, 'scalar', dict(cls=c, op=op, A=elements(rng, c, m), k=k))
     for c in TW:
-        for m in range(1, 6):
+        for m in range(1, 8):
             for n in range(1, 6):
                 i += 1
                 if not ctx.mine(i):
